@@ -604,31 +604,87 @@ func (vc *FuncVC) trCall(e *env, n *ECall) Term {
 	case *ESel:
 		// pure method application on an interface value: x.M(args)
 		recv := vc.tr(e, f.X)
-		if recv.GoT == nil {
-			return e.fail("method %s on untyped term %s", f.Name, recv.S)
+		var rsort string
+		var rt types.Type
+		var deps []string
+		if recv.GoT != nil {
+			ms := types.NewMethodSet(recv.GoT)
+			sel := ms.Lookup(nil, f.Name)
+			if sel == nil && vc.fn.Pkg != nil {
+				sel = ms.Lookup(vc.fn.Pkg.Pkg, f.Name)
+			}
+			if sel == nil {
+				return e.fail("no method %s on %s", f.Name, recv.GoT)
+			}
+			sig := sel.Type().(*types.Signature)
+			if sig.Results().Len() != 1 {
+				return e.fail("method %s must have one result to be used in a specification", f.Name)
+			}
+			rt = sig.Results().At(0).Type()
+			rsort = vc.ss.sortOf(rt)
+			// which version ghosts: from the contract of the interface method
+			if c, _ := vc.lookupIfaceContract(recv.GoT, sel.Obj().(*types.Func)); c != nil {
+				if c.Returns != nil {
+					// result defined by an expression over the state
+					saved := map[string]*Term{}
+					bind := func(k string, v Term) {
+						if old, ok := e.vars[k]; ok {
+							o := old
+							saved[k] = &o
+						} else {
+							saved[k] = nil
+						}
+						e.vars[k] = v
+					}
+					bind("this", recv)
+					bind("$method", strLit(f.Name))
+					bind("$prop", strLit(strings.TrimPrefix(strings.TrimPrefix(f.Name, "Get"), "Set")))
+					for i, a := range args {
+						bind(fmt.Sprintf("$arg%d", i+1), a)
+					}
+					r := vc.tr(e, c.Returns.E)
+					for k, v := range saved {
+						if v == nil {
+							delete(e.vars, k)
+						} else {
+							e.vars[k] = *v
+						}
+					}
+					if r.Sort == nilSort {
+						r = vc.ss.zero(rsort)
+					}
+					r.GoT = rt
+					return r
+				}
+				deps = pureDeps(c)
+				if !c.Pure {
+					return e.fail("method %s is not declared pure", f.Name)
+				}
+			} else {
+				deps = []string{"ASH", "ASHP"}
+			}
+		} else {
+			// untyped receiver (a quantified variable): only the well-known container observers
+			switch f.Name {
+			case "Len":
+				rsort, deps = "Int", []string{"ASHP"}
+			default:
+				return e.fail("method %s on untyped term %s", f.Name, recv.S)
+			}
 		}
-		ms := types.NewMethodSet(recv.GoT)
-		sel := ms.Lookup(nil, f.Name)
-		if sel == nil && vc.fn.Pkg != nil {
-			sel = ms.Lookup(vc.fn.Pkg.Pkg, f.Name)
+		var as []Term
+		for _, dep := range deps {
+			as = append(as, vc.get(e.st(), "G:"+dep, "Int"))
 		}
-		if sel == nil {
-			return e.fail("no method %s on %s", f.Name, recv.GoT)
-		}
-		sig := sel.Type().(*types.Signature)
-		if sig.Results().Len() != 1 {
-			return e.fail("method %s must have one result to be used in a specification", f.Name)
-		}
-		rt := sig.Results().At(0).Type()
-		ash := vc.get(e.st(), "G:ASH", "Int")
-		as := append([]Term{ash, recv}, args...)
+		as = append(as, recv)
+		as = append(as, args...)
 		var sorts []string
 		for _, a := range as {
 			sorts = append(sorts, a.Sort)
 		}
 		fname := "m!" + smtIdent(f.Name)
-		vc.eng.needFun(vc, fname, sorts, vc.ss.sortOf(rt))
-		r := app(vc.ss.sortOf(rt), fname, as...)
+		vc.eng.needFun(vc, fname, sorts, rsort)
+		r := app(rsort, fname, as...)
 		r.GoT = rt
 		return r
 	}
